@@ -1,4 +1,5 @@
 import PtVerif.Proofs.Formula
+import PtVerif.Proofs.FormulaRefine
 /-!
 # C02 — composition arithmetic: atoms, mass, charge and mass fractions are additive
 
@@ -80,6 +81,20 @@ theorem iadd_changes_only_its_target (sym : Nat → Nat → Nat) (h h' : Heap α
     (hs : h.step sym (.iadd r1 r2) = some h') (i : Nat) (hne : h.reg r1 ≠ some i) :
     h'.objs[i]? = h.objs[i]? := Heap.step_iadd_frame sym h h' r1 r2 hs i hne
 end
+
+/-- **all sequences of operations**: for every program of constructions (`formula(seq)`,
+    `formula(dict)`, `formula(f)`), aliasing, `+`, `n*`, `+=` and `.hill`, reading the atom counts
+    of the real structures equals running the specification in which each formula *is* its count
+    function (counts add under `+`/`+=`, scale under `n*`, are kept by copy/Hill) – the
+    refinement of `Heap.step` to `AHeap.step`, lifted to every operation list by induction -/
+theorem programs_refine_count_spec [CommSemiring α] [DecidableEq α] (sym : Nat → Nat → Nat)
+    (ops : List (Op α)) (hw : ∀ op ∈ ops, op.wf) (h : Heap α) :
+    (h.run sym ops).map Heap.abs = h.abs.run ops := Heap.run_refines sym ops hw h
+
+/-! non-vacuity: a program with aliasing and `+=` runs, and its spec run agrees -/
+example : ((Heap.empty : Heap Int).run (fun _ _ => 0)
+    [.new 0 (.cons 2 (.atom ⟨1,0,0⟩) .nil), .same 1 0, .new 2 (.cons 1 (.atom ⟨8,0,0⟩) .nil),
+     .iadd 1 2, .mul 3 3 0]).isSome = true := by decide
 
 /-! non-vacuity: a nested structure with a repeated atom and a non-zero mass -/
 example : lookupD (Items.cons (2 : Int) (.group (.cons 3 (.atom ⟨1, 0, 0⟩) (.cons 1 (.atom ⟨8, 0, 0⟩) .nil)))
